@@ -53,7 +53,7 @@
 (*   (when the node object must carry the last calculation) the same       *)
 (*   bounds as BatchOutOK.  ReconImpl: transcription of the node writer.   *)
 (***************************************************************************)
-EXTENDS Integers, Sequences, FiniteSets
+EXTENDS Integers, Sequences, FiniteSets, IOUtils
 
 CONSTANTS
   ChargeNoMetricInMaxUR,  \* Impl only. TRUE: a pod without metrics is added to the max(usage,request) sum
@@ -87,11 +87,15 @@ Reserved(i, r) == Max2(Pos(i.cap[r] - i.alloc[r]), i.anno[r])                 \*
 HostHP(i, r, classes) == SumOver(i.apps, LAMBDA a : IF a.prio \in classes THEN a.use[r] ELSE 0)
 SysUsed(i, r)  == i.sys[r] + HostHP(i, r, {"prod", "mid"})                    \* system usage incl. HP host apps
 
+\* second validation pass of the segments rejected for the recorded finding on policy "request" (known_findings.json):
+\* the documented formula is accepted there, so that the rest of such a segment is judged too
+TolerateReqPolicy == "VERIF_TOLERATE_C09_REQPOLICY" \in DOMAIN IOEnv
+
 \* "the larger of system usage and node reservation".  Under policy "request" the documented formula
 \* (comment in CalculateBatchResourceByPolicy, pinned by batchresource/plugin_test.go) counts the node
 \* reservation only; ReqPolicySysUsage = TRUE would demand the literal reading for that policy too.
 SystemTerm(i, r) ==
-  IF EffPol(i, r) = "request" /\ ~ReqPolicySysUsage THEN Reserved(i, r)
+  IF EffPol(i, r) = "request" /\ (~ReqPolicySysUsage \/ TolerateReqPolicy) THEN Reserved(i, r)
   ELSE Max2(SysUsed(i, r), Reserved(i, r))
 
 \* what one listed pod is charged:  usage / request / the larger of both per the policy;
